@@ -7,8 +7,8 @@ from sim import shrink as shr
 import copy
 
 PROP = 'C05'
-QUICK_RUNS = 40000
-THOROUGH_RUNS = 600000
+QUICK_RUNS = 200000
+THOROUGH_RUNS = 2000000
 QUICK_WALL = 100
 THOROUGH_WALL = 1500
 CHUNK = 200
